@@ -379,7 +379,17 @@ def apply(rc):
         if sn_ is None or norm(sn_) != "self.state_names":
             # Gaussian scores take no state names: accept a guarded call without them only under a test on the method's name
             par_if = [p_ for p_ in _anc(c_) if isinstance(p_, ast.If)]
-            gauss_branch = any("-g" in norm(p_.test) and any(x is c_ for st_ in p_.body for x in ast.walk(st_)) for p_ in par_if)
+            def _in_gauss(p_):
+                t_, neg_ = p_.test, False
+                while isinstance(t_, ast.UnaryOp) and isinstance(t_.op, ast.Not):
+                    t_, neg_ = t_.operand, not neg_
+                if "-g" not in norm(t_):
+                    return False
+                if isinstance(t_, ast.Compare) and isinstance(t_.ops[0], (ast.NotIn, ast.NotEq)):
+                    neg_ = not neg_
+                branch = p_.orelse if neg_ else p_.body
+                return any(x is c_ for st_ in branch for x in ast.walk(st_))
+            gauss_branch = any(_in_gauss(p_) for p_ in par_if)
             if not gauss_branch:
                 rc.fail(fi, c_, "the named score is built without the estimator's declared `state_names`: states that are declared but absent from the data are not counted, "
                         "and the search result is not a local optimum for the declared state spaces", construct="score state_names")
